@@ -242,6 +242,9 @@ impl ColumnMetrics {
                 start_byte -= 1;
             }
             if self.is_line_break(text, start_byte - 1) {
+                // The line starts after the whole line break, which may be
+                // more than one byte long.
+                start_byte += self.line_ending.as_str().len() - 1;
                 break;
             }
             start_byte = start_byte.saturating_sub(1);
